@@ -602,10 +602,15 @@ def other_key(case, res, neutral_sig):
         special = sorted({e["cls"] for e in case["envs"]} - {"dollar"})
         if special:
             return "roundtrip:environment:value-%s%s" % (special[0], suffix)
-        names = sorted({p.split(".")[0] for p in wrong})
-        shapes = sorted({"%s-%d-vars" % ("mixed-case-name" if e["name"] != e["name"].lower() else "name-" + e["name"], len(e["vars"]))
-                         for e in case["envs"] if not names or e["name"].lower() in names})
-        return "roundtrip:environment:%s%s" % ("+".join(shapes) or "none", suffix)
+        names = {p.split(".")[0] for p in wrong}
+        bad = [e for e in case["envs"] if not names or e["name"].lower() in names]
+        shapes = sorted({"%d-vars" % len(e["vars"]) for e in bad})
+        trait = ""
+        if bad and all(e["name"] != e["name"].lower() for e in bad):
+            trait = ":mixed-case-name"
+        elif bad and all(e["name"] == "environment" for e in bad):
+            trait = ":name-environment"
+        return "roundtrip:environment:%s%s%s" % ("+".join(shapes) or "none", trait, suffix)
     if fam == "status":
         wrong = sorted({p.split(".", 1)[1] for c, p, a, b in (res["diffs"] or res["diffs2"]) if "." in p})
         forms = sorted({s["form"] for s in case["status"]})
